@@ -472,6 +472,23 @@ Fixpoint links (s : state) (ns : list name) (last : name) : Prop :=
     links s r last
   end.
 
+(* ---------- thread annotations are transparent ---------- *)
+(* the same loader with every nested require moved to the loader's own thread *)
+Definition same_thread (a : action) : action :=
+  match a with
+  | Require _ m => Require TSame m
+  | PRequire _ m => PRequire TSame m
+  | a => a
+  end.
+Definition strip_loader (l : loader) : loader := mkLoader (lk l) (map same_thread (lscript l)).
+Definition strip_file (c : fcontent) : fcontent :=
+  match c with FScript sc => FScript (map same_thread sc) | c => c end.
+(* the same state with every installed loader replaced by its single-threaded version *)
+Definition strip_state (s : state) : state :=
+  mkState (loaded s) (fun n => option_map strip_loader (preload s n))
+          (fun d n => option_map strip_file (files s d n)) (path s) (globals s) (log s) (next s)
+          (tfuncs s).
+
 (* ---------- host initialisation in any order (lua.Options{SkipOpenLibs:true}) ---------- *)
 (* reserved names: the harness maps them to "package", "string", "table" *)
 Definition PKG : name := 10.
